@@ -63,9 +63,46 @@ def alias_tasks(units, tier):
                     T.append(t)
     return T
 
+
+import C12 as c12
+def itv_alias_tasks(units, tier):
+    """C12's interval contracts with the receiver aliased to an operand: x.op(x, y), x.op(y, x), x.op(x, x)"""
+    T = []
+    combos = [("s8", "nat")] if tier == "quick" else [("s8", "nat"), ("s8", "rat")]
+    for (tt, pol) in combos:
+        u = c12.unit_for(tt, pol); u.prop = "C13"; u.dir = os.path.join(BUILD, "C13", "units", u.name); units.append(u)
+        w = u.defs["T_W"]
+        def mk(op, nargs, mode, case=None):
+            t = c12.itv_task(u, tt, pol, op, nargs, case=case)
+            t.id = "interval-alias/%s/%s/%s/%s%s" % (tt, pol, op, mode, ("/" + case[0] + "-" + case[1]) if case else "")
+            t.defs = dict(t.defs); t.defs["ALIAS_VARIANT"] = 1
+            t.native = None
+            snap = {"to_is_x": "G_x0 = to; G_y0 = y;", "to_is_y": "G_x0 = x; G_y0 = to;", "all_same": "G_x0 = to; G_y0 = to;", "to_is_x1": "G_x0 = to;"}[mode]
+            args = {"to_is_x": "&to, &to, &y", "to_is_y": "&to, &x, &to", "all_same": "&to, &to, &to", "to_is_x1": "&to, &to"}[mode]
+            pre = t.harness_pre
+            if case:   # the sign configuration is a property of the ENTRY values
+                pre = pre.replace("(&x)", "(&G_x0)").replace("(&y)", "(&G_y0)")
+            t.harness_pre = "  " + snap + "\n" + pre
+            t.call = "uint32_t r = FN_%s(%s)" % (op, args)
+            t.reach = [("operands nonempty", "!is_empty_set(&G_x0)")]
+            return t
+        T.append(mk("neg", 1, "to_is_x1"))
+        for op in ("add", "sub"):
+            for mode in ("to_is_x", "to_is_y", "all_same"): T.append(mk(op, 2, mode))
+        for op in ("mul", "div"):
+            for mode in ("to_is_x", "to_is_y"):
+                for cx in ("pos", "neg", "mix"):
+                    for cy in ("pos", "neg", "mix"):
+                        if tier == "quick" and mode == "to_is_y" and not (cx == cy): continue
+                        T.append(mk(op, 2, mode, case=(cx, cy)))
+            for c in ("pos", "neg", "mix"): T.append(mk(op, 2, "all_same", case=(c, c)))
+        for op in ("join2", "intersect2", "difference2"):
+            for mode in ("to_is_x", "to_is_y", "all_same"): T.append(mk(op, 2, mode))
+    return T
+
 def build(tier):
     u = det_unit(); units = [u]
-    tasks = det_tasks(u) + alias_tasks(units, tier)
+    tasks = det_tasks(u) + alias_tasks(units, tier) + itv_alias_tasks(units, tier)
     return units, tasks
 
 def main(tier, only=None):
